@@ -79,6 +79,8 @@ func runC02(res *lp.Result) {
 							Input: id + " bytes=" + hx(enc), Impl: "bytes denote: " + trunc(got), Model: "frame encoded: " + trunc(want)})
 					}
 					ask("frame dec none "+hx(enc), fmt.Sprintf("ok %d %s", len(enc), show.Frame(dec)), id+" "+show.Frame(f))
+					// what the bytes denote does not depend on how the source hands them over (piecewise, several frames in one buffer)
+					otherSources(res, rng, compSettings()[0], enc, nil, show.Frame(dec), id)
 				} else {
 					res.Add(lp.Finding{Kind: "violation", What: "emitted bytes are not decoded back: " + firstWords(err.Error()), Input: id + " bytes=" + hx(enc)})
 				}
@@ -246,9 +248,11 @@ func runC02(res *lp.Result) {
 	for _, vc := range vectors {
 		res.Count("spec-vectors")
 		res.Case("vector "+vc.what, true)
-		if _, err := codec.DecodeFrame(bytes.NewReader(vc.data)); err != nil {
+		if dv, err := codec.DecodeFrame(bytes.NewReader(vc.data)); err != nil {
 			res.Add(lp.Finding{Kind: "violation", What: "specification-formatted frame is not decoded: " + vc.what,
 				Input: hex.EncodeToString(vc.data), Impl: firstWords(err.Error())})
+		} else {
+			otherSources(res, rng, compSettings()[0], vc.data, nil, show.Frame(dv), "spec vector "+vc.what)
 		}
 	}
 }
